@@ -82,7 +82,7 @@ def explore(ck, view_index, pid):
                       "columns / group / empty / raw child / padded column; wrappers: plain / full-width / bg + full-width child / bg-url child / two "
                       "sections / raw between / empty; hero; raw) - exhaustive; each output judged by the extracted checker and its body validated as a "
                       "seam-merge of its blocks' solo bodies; plus generated full-grammar documents (every leaf kind in every container, typed attribute "
-                      "values) and the fixtures. Non-trivial: >= 2 blocks / >= 6 distinct tags." % ((2, 14) if ck.quick else (3, len(vl.BLOCKS))))
+                      "values) and the fixtures. Non-trivial: >= 2 blocks / >= 6 distinct tags." % ((2, len(vl.QUICK14)) if ck.quick else (3, len(vl.BLOCKS))))
     return failing
 
 
